@@ -83,10 +83,11 @@ Definition write_recs (c : cfg) (p : list Z) : list (list Z) :=
   if (1 <? blen p) && (c_vers c <=? 769) && (c_kind c =? 1)
   then firstn 1 p :: chunks (length p) (skipn 1 p)
   else chunks (length p) p.
-(* the plaintext records (type, payload) of a session: the writes, then close_notify if the client closes *)
-Definition plain_records (c : cfg) (writes : list (list Z)) (close : bool) : list (Z * list Z) :=
+(* the plaintext records (type, payload) of a session: the writes, then one alert record with payload fin
+   ([1; 0] = the close_notify of Conn.Close; [] = no alert: writeRecord sends nothing for empty data) *)
+Definition plain_records (c : cfg) (writes : list (list Z)) (fin : list Z) : list (Z * list Z) :=
   map (fun p => (typApp, p)) (flat_map (write_recs c) writes)
-  ++ (if close then [(typAlert, [1; 0])] else []).
+  ++ (match fin with [] => [] | _ => [(typAlert, fin)] end).
 
 Record srec (B : Type) := mkRec {
   r_typ : Z; r_vers : Z; r_claim : Z; r_actual : Z; r_body : option B }.
@@ -98,6 +99,9 @@ Section AE.
   Variable seal : Z -> Z -> Z -> list Z -> B.
   Variable open : Z -> Z -> Z -> B -> option (list Z).
   Variable c : cfg.
+  (* what a bit flip at byte offset off of record r turns its body into: None (bytes that are no sealed
+     body any more) unless the primitive leaves some ciphertext bytes unauthenticated *)
+  Variable bflip : srec B -> Z -> option B.
 
   (* writeRecord + encrypt: record k of the connection is sealed under sequence number k *)
   Fixpoint protect_from (k : Z) (l : list (Z * list Z)) : list (srec B) :=
@@ -188,7 +192,7 @@ Section AE.
     else if off =? 2 then mkRec (r_typ r) (Z.lxor (r_vers r) mask) (r_claim r) (r_actual r) (r_body r)
     else if off =? 3 then mkRec (r_typ r) (r_vers r) (Z.lxor (r_claim r) (mask * 256)) (r_actual r) (r_body r)
     else if off =? 4 then mkRec (r_typ r) (r_vers r) (Z.lxor (r_claim r) mask) (r_actual r) (r_body r)
-    else if (5 <=? off) && (off <? 5 + r_actual r) then mkRec (r_typ r) (r_vers r) (r_claim r) (r_actual r) None
+    else if (5 <=? off) && (off <? 5 + r_actual r) then mkRec (r_typ r) (r_vers r) (r_claim r) (r_actual r) (bflip r off)
     else r.
 
   Definition in_range (i : Z) (l : list (srec B)) : bool := (0 <=? i) && (i <? Z.of_nat (length l)).
@@ -235,12 +239,45 @@ Section AE.
 End AE.
 
 (* ---- the free (Dolev-Yao) instance used for the executable model: a sealed body is the term itself ---- *)
-Inductive sbody := Sealed (k t v : Z) (p : list Z).
+(* pm = true: same sealed record, but some of its (unauthenticated) SSLv3 padding bytes were modified *)
+Inductive sbody := Sealed (k t v : Z) (p : list Z) (pm : bool).
+Definition sseal (k t v : Z) (p : list Z) : sbody := Sealed k t v p false.
 Definition sopen (seq t v : Z) (b : sbody) : option (list Z) :=
-  (* the version is covered by the MAC / additional data except by the SSLv3 MAC *)
-  match b with Sealed k t' v' p => if (k =? seq) && (t' =? t) && ((v' =? v) || (v =? 768)) then Some p else None end.
+  (* the version is covered by the MAC / additional data except by the SSLv3 MAC; modified padding is
+     noticed by every version except SSLv3 *)
+  match b with
+  | Sealed k t' v' p pm =>
+    if (k =? seq) && (t' =? t) && ((v' =? v) || (v =? 768)) && (negb pm || (v =? 768)) then Some p else None
+  end.
 Definition sbody_eqb (a b : sbody) : bool :=
-  match a, b with Sealed k t v p, Sealed k' t' v' p' => (k =? k') && (t =? t') && (v =? v') && list_Z_eqb p p' end.
+  match a, b with
+  | Sealed k t v p pm, Sealed k' t' v' p' pm' =>
+    (k =? k') && (t =? t') && (v =? v') && list_Z_eqb p p' && Bool.eqb pm pm'
+  end.
+
+(* SSLv3 CBC with a peer that sends more than one block of padding: neither the MAC nor
+   removePaddingSSL30 looks at padding bytes other than the last one.  A flipped ciphertext bit garbles
+   its own plaintext block and flips one bit of the next block; the record still opens when the garbled
+   block lies entirely inside the padding, is not the final block, and the flipped bit of the next block
+   is not in the padding length byte. *)
+Definition ssl3_longpad (c : cfg) : bool :=
+  (c_vers c =? 768) && (c_kind c =? 1) && (c_pad c =? 2) && (1 <=? c_padx c) && (0 <? c_bs c).
+Definition sbflip (c : cfg) (r : srec sbody) (off : Z) : option sbody :=
+  if negb (ssl3_longpad c) then None
+  else match r_body r with
+       | Some (Sealed k t v p pm) =>
+         let bs := c_bs c in
+         let padstart := blen p + c_mac c in
+         let T := padstart + blen (sender_pad c (blen p)) in
+         let ob := off - 5 in
+         let b := ob / bs in
+         if (r_claim r =? r_actual r) && (r_actual r =? T) &&
+            (padstart <=? b * bs) && ((b + 2) * bs <=? T) && negb ((b + 1) * bs + ob mod bs =? T - 1)
+         then Some (Sealed k t v p true) else None
+       | None => None
+       end.
+Definition has_pm (l : list (srec sbody)) : bool :=
+  existsb (fun r => match r_body r with Some (Sealed _ _ _ _ pm) => pm | None => false end) l.
 Definition srec_eqb (a b : srec sbody) : bool :=
   (r_typ a =? r_typ b) && (r_vers a =? r_vers b) && (r_claim a =? r_claim b) && (r_actual a =? r_actual b) &&
   match r_body a, r_body b with
